@@ -90,6 +90,34 @@ def gen_chain(rng):
     return names, leaves, muts
 
 
+def mid_mutation(rng, names, leaves):
+    """A side effect INSIDE the chain: operand k (k >= 1) assigns a precedence to, or rebinds, an operator
+    that occurs again at or after position k.  Operands and operator expressions are evaluated left to right,
+    each exactly once, so the occurrences before operand k carry the old value and those after it the new one.
+    -> (k, statement text, per-position override {i: (name, prec or None)}) or None"""
+    n = len(names)
+    if n < 3 or any(x in EXPLOSIVE for x in names) or isinstance(leaves[0], list):
+        return None
+    k = rng.randint(1, n - 1)
+    if rng.random() < 0.6:
+        names[k] = names[k - 1]          # the same identifier on both sides of the mutating operand
+    nm = names[k]
+    over = {}
+    if rng.random() < 0.7:
+        p = rng.choice([x for x in PREC_VALUES if x is not None])
+        stmt = "%s::precedence = %s" % (nm, repr(p))
+        for i in range(k, n):
+            if names[i] == nm:
+                over[i] = (nm, {"nan": False, "v": int(p * 2)})
+    else:
+        other = rng.choice([x for x in ("+", "-", "*", "max", "min") if x != nm])
+        stmt = "%s = %s" % (nm, other)
+        for i in range(k, n):
+            if names[i] == nm:
+                over[i] = (other, None)       # precedence: whatever `other` carries (read back before the chain)
+    return k, stmt, over
+
+
 def to_val(c):
     """canonical value -> Trace_Chain value"""
     t = c.get("t")
@@ -153,16 +181,23 @@ def drive(rep, tier, seed, wd):
     cases, meta = [], {}
     for cid in range(n_chains):
         names, leaves, muts = gen_chain(rng)
-        src = " ".join(([lit(leaves[0])] + [x for i, nm in enumerate(names) for x in (nm, lit(leaves[i + 1]))]))
+        mid = mid_mutation(rng, names, leaves) if rng.random() < 0.15 else None
+        lits = [lit(v) for v in leaves]
+        readback = list(names)
+        if mid:
+            k, stmt, over = mid
+            lits[k] = "(%s; %s)" % (stmt, lits[k])
+            readback += sorted({nm for nm, pr in over.values() if pr is None})
+        src = " ".join(([lits[0]] + [x for i, nm in enumerate(names) for x in (nm, lits[i + 1])]))
         steps = [{"src": m} for m in muts]
-        steps.append({"src": "[" + ", ".join("%s::precedence" % nm for nm in names) + "]"})
+        steps.append({"src": "[" + ", ".join("%s::precedence" % nm for nm in readback) + "]"})
         steps.append({"src": src})
         cases.append({"id": cid, "steps": steps})
-        meta[cid] = (names, leaves, muts, src)
+        meta[cid] = (names, leaves, muts, src, mid, readback)
     res = nv.run_cases(cases, timeout_ms=20000)
     events, info = [], []
     for c in cases:
-        names, leaves, muts, src = meta[c["id"]]
+        names, leaves, muts, src, mid, readback = meta[c["id"]]
         sts = res[c["id"]]
         replay = {"steps": [s["src"] for s in c["steps"]], "observed": sts}
         if len(sts) != len(c["steps"]) or any(s.get("o") != "ok" for s in sts[:-1]):
@@ -174,11 +209,20 @@ def drive(rep, tier, seed, wd):
             rep.mismatch("trace:precedence-readback", "f::precedence did not give back an assigned value", replay)
             continue
         last = sts[-1]
-        ev = {"ev": "chain", "names": names, "precs": precs, "leaves": [py_val(v) for v in leaves],
+        names_eff = list(names)
+        if mid:
+            # what each operator POSITION carries when the chain reaches it
+            byname = dict(zip(readback, precs))
+            precs = precs[:len(names)]
+            for i, (nm2, pr) in mid[2].items():
+                names_eff[i] = nm2
+                precs[i] = pr if pr is not None else byname[nm2]
+            muts = muts + ["(inside operand %d) %s" % (mid[0], mid[1])]
+        ev = {"ev": "chain", "names": names_eff, "precs": precs, "leaves": [py_val(v) for v in leaves],
               "out": last.get("o"), "r": to_val(last["v"]) if last.get("o") == "ok" else {"t": "none"},
               "doc": not muts}
         events.append(ev)
-        info.append(dict(src=src, muts=muts, names=names, observed=last, replay=replay))
+        info.append(dict(src=src, muts=muts, names=names, observed=last, replay=replay, mid=bool(mid)))
     mism, unspec = validate("Trace_Chain", events, wd, chunk=(len(events) + 7) // 8 if tier == "quick" else 500)
     for idx, exp in mism:
         i = info[idx]
@@ -188,7 +232,8 @@ def drive(rep, tier, seed, wd):
         if what == "default-precedence":
             key = "trace:default-precedence:" + "+".join(sorted(set(x for x in exp["exp"].get("wrong", []) if x)))
         else:
-            key = "trace:%s:%s:%s:%s" % (what, "reassigned" if i["muts"] else "default", "+".join(sorted(set(i["names"]))), kind)
+            key = "trace:%s:%s:%s:%s" % (what, "mid-chain" if i["mid"] else ("reassigned" if i["muts"] else "default"),
+                                         "+".join(sorted(set(i["names"]))), kind)
         rep.mismatch(key, "%s%s: observed %s, specification groups it as %s and expects %s" % (
             "; ".join(i["muts"]) + "; " if i["muts"] else "", i["src"],
             json.dumps(i["observed"].get("v", i["observed"].get("e")))[:200],
